@@ -109,6 +109,18 @@ def run_real(text_or_lines, rows=None):
     return "OK " + " ;; ".join(show(cf) for cf in res.values()), res
 
 
+def n_columns(rows):
+    """columns of the table that carry at least one value (comment rows and rows without a key aside)"""
+    cols = set()
+    for r in rows:
+        if not r or not r[0].strip() or r[0].strip().startswith("#"):
+            continue
+        for i, v in enumerate(r[1:]):
+            if v.strip():
+                cols.add(i)
+    return len(cols)
+
+
 def in_domain(res):
     """the property's documented domains, checked on the REAL result"""
     import vc2_data_tables as t
@@ -294,6 +306,9 @@ class Prop(object):
                 why = in_domain(val)
                 if why:
                     return {"csv": text, "why": "returned configuration outside its documented domain: " + why}
+                if len(val) != n_columns(rows):
+                    return {"csv": text, "why": "the table has %d columns but %d configurations were returned (names %s): a column was silently dropped "
+                                                "instead of the reader succeeding for every column or explaining" % (n_columns(rows), len(val), sorted(val))}
         return None
 
     def replay(self, ctx, path):
@@ -310,6 +325,10 @@ class Prop(object):
             why = res
         elif val is not None:
             why = in_domain(val)
+            if not why:
+                rows = list(csv.reader(io.StringIO(text)))
+                if len(val) != n_columns(rows):
+                    why = "%d columns, %d configurations returned" % (n_columns(rows), len(val))
         print("replay ->", why or "property holds (%s)" % res.split(" ")[0])
         return 1 if why else 0
 
